@@ -1,8 +1,33 @@
-(* Props/C23.v — C23 "read splits lines like bash": property theorems only. *)
-From Verif Require Import Base.Str Expand.Fields Expand.Read.
+(* Props/C23.v — C23 "read splits lines like bash": property theorems only.
+   Model: Expand/Read.v (ReadFields of the repaired code, fix: 3616507; readLine; the
+   read builtin's assignment logic). *)
+From Verif Require Import Base.Str Expand.Fields Expand.Read Proofs.ReadProofs.
 Open Scope N_scope.
 
-(* IFS=: read a b c <<< 'x::y:z:'  gives  x '' y:z: *)
+(* no index or slice expression of ReadFields goes out of range: every line, IFS, n
+   (also 0 and negative, which used to panic), with and without -r *)
+Theorem C23_no_panic : forall oifs line n raw, exists fs, read_fields oifs line n raw = Ok fs.
+Proof. exact read_fields_no_panic. Qed.
+Print Assumptions C23_no_panic.
+
+(* nor does the builtin: readLine's line[:len(line)-1] and the three assignment paths *)
+Theorem C23_builtin_no_panic : forall oifs raw t inp, exists r, read_builtin oifs raw t inp = Ok r.
+Proof. exact read_builtin_no_panic. Qed.
+Print Assumptions C23_builtin_no_panic.
+
+(* IFS=: read a b c <<< 'x::y:z:'  gives  x '' y:z: ;  IFS=: read a <<< 'x:' gives x;
+   read a b <<< 'a\ b c\ ' keeps the escaped blanks; spec and model agree on them *)
 Example C23_ex_rest :
-  read_fields (Some [58]) [120;58;58;121;58;122;58] 3 false = Ok [[120];[];[121;58;122;58]].
+  read_fields (Some [58]) [120;58;58;121;58;122;58] 3 false = Ok [[120];[];[121;58;122;58]]
+  /\ spec_read_fields (Some [58]) [120;58;58;121;58;122;58] 3 false = [[120];[];[121;58;122;58]].
+Proof. vm_compute. split; reflexivity. Qed.
+Example C23_ex_single_delim : read_fields (Some [58]) [120;58] 1 false = Ok [[120]].
 Proof. vm_compute. reflexivity. Qed.
+Example C23_ex_escapes :
+  read_fields None [97;92;32;98;32;99;92;32] 2 false = Ok [[97;32;98];[99;32]]
+  /\ read_fields None [97;92;32;98;32;99;92;32] 2 true = Ok [[97;92];[98;32;99;92]].
+Proof. vm_compute. split; reflexivity. Qed.
+Example C23_ex_builtin :
+  read_builtin None false (TNames 2) [97;92;10;98;32;99;32;100;10;101] = Ok (AScalars [[97;98];[99;32;100]], false)
+  /\ spec_read None false (TNames 2) [97;92;10;98;32;99;32;100;10;101] = (AScalars [[97;98];[99;32;100]], false).
+Proof. vm_compute. split; reflexivity. Qed.
